@@ -26,7 +26,7 @@ package updater
 // only removed for versions behind that prefix, and nothing happens while a version is blacklisted.
 //@ func (*Resource).Purge
 //@   requires wfRes(res)
-//@   modifies res.Versions
+//@   modifies res.Versions, fsRemoves, fsRemoved
 //@   ghost var firstRemoved int = 1 << 60
 //@   at call os.Remove#0 ghost firstRemoved = (purgeBoundary + rangeindex + 1 < firstRemoved ? purgeBoundary + rangeindex + 1 : firstRemoved)
 //@   ensures sameBase(res.Versions, old(res.Versions)) && soff(res.Versions) == old(soff(res.Versions)) && len(res.Versions) <= old(len(res.Versions))
